@@ -477,7 +477,7 @@ def run(ctx):
             res["samples"] = []
         ctx.merge(res)
     ctx.cov["cases"] = len(jobs)
-    ctx.cov["n_range"] = "1..128" if ctx.thorough else "1..41"
+    ctx.cov["n_range"] = ("1..128 + 129..600 (selected) for series rules" if ctx.thorough else "1..41 + 129,130,131,193,257,258 for series rules")
     ctx.exhaustive = True
 
 
